@@ -1,7 +1,7 @@
 (* C07 - Restoring a table stream reproduces exactly the content that was captured.
    Statements only; every proof is [exact <lemma>]. *)
 From Verif Require Import Model.Bytes Model.SMap Model.Cmd Model.Spec Model.Framing Model.Restore.
-From Verif Require Import Proofs.SMapFacts Proofs.FramingFacts Proofs.RestoreFacts.
+From Verif Require Import Proofs.SMapFacts Proofs.FramingFacts Proofs.RestoreFacts Model.BackupGate Proofs.BackupGateFacts.
 
 (* the command stream written to a snapshot file and shipped in chunks is read back as the same messages with the
    same boundaries, for every chunking and every compressor with the round-trip property *)
@@ -40,7 +40,26 @@ Print Assumptions C07_backup_restore_exact.
 (* point in time: commandSnapshot reads the index and iterates the pairs from ONE store value (a Pebble snapshot),
    so the stream's content is the content at exactly the declared index: in the model the stream is a function of a
    single (U, i); that the implementation takes both from one snapshot while writes continue is exercised by the
-   correspondence run with a concurrent writer.  The manifest checksum gate of backup files is likewise compared. *)
+   correspondence run with a concurrent writer. *)
+
+(* a backup file whose checksum does not match its manifest is refused: the backup client (Backup.Restore) uploads a
+   file only if its checksum equals the manifest entry - whatever the hash function; the run reports success exactly
+   when every file matches; the uploads are exactly the tables before the first mismatch (that table and all later ones
+   are not touched) *)
+Theorem C07_only_matching_files_uploaded : forall (hash : bytes -> N) (ts : list btab) (n : N) (f : bytes),
+  In (n, f) (fst (restore_client hash ts)) -> exists t, In t ts /\ b_name t = n /\ b_file t = f /\ hash f = b_sum t.
+Proof. exact uploads_match. Qed.
+Theorem C07_restore_succeeds_iff_all_match : forall (hash : bytes -> N) (ts : list btab),
+  snd (restore_client hash ts) = true <-> forallb (matches hash) ts = true.
+Proof. exact success_iff_all_match. Qed.
+Theorem C07_mismatch_stops_the_run : forall (hash : bytes -> N) (ts : list btab),
+  map fst (fst (restore_client hash ts)) = map b_name (firstn (length (fst (restore_client hash ts))) ts) /\
+  (snd (restore_client hash ts) = false ->
+   exists t, nth_error ts (length (fst (restore_client hash ts))) = Some t /\ matches hash t = false).
+Proof. exact uploads_are_matching_prefix. Qed.
+Print Assumptions C07_only_matching_files_uploaded.
+Print Assumptions C07_mismatch_stops_the_run.
+
 Example C07_example :
   restored (read_into_table 1200 (table_stream (fun _ => 270) [([1], [10]); ([2], [20]); ([3], [30])] (Some 7))) =
   ([([1], [10]); ([2], [20]); ([3], [30])], 7).
